@@ -146,6 +146,14 @@ Definition fp_open_read (cap : nat) (o : os) : res fp :=
 Definition fp_open_istream (cap : nat) (src : list Z) : fp :=
   mkFp [] O cap false O true false RcIStream (os_init src []) [] 1%nat [].
 
+(* What TransitionToRead leaves behind when ReadFactory installed a decompressing reader
+   (gz / bz2 / xz, possibly several members): an empty buffer and a reader whose Read(to, amount)
+   returns between 1 and amount of the next PLAIN bytes and 0 only at the end -- that is the
+   contract property C15 establishes for ReadStream.  Such a reader is exactly RcFd over the
+   plain bytes with some outcome script (the script is the chunking). *)
+Definition fp_open_stream (cap : nat) (plain : list Z) (chunking : list outcome) : fp :=
+  mkFp [] O cap false O true false RcFd (os_init plain chunking) [] 1%nat [].
+
 (* FilePiece(fd/name) on a regular file of contents `file` whose descriptor stands at
    offset off: mapped_offset_ = off; Shift; magic test on the first window *)
 Definition fp_open_file (page cap : nat) (file : list Z) (off : nat) (script : list outcome) : res fp :=
